@@ -107,7 +107,7 @@ CHECKS = {
         "engine": "seqx", "design_ref": "DESIGN.md section 3 C18",
         "technique": "explicit-state BFS over put(width,value) sequences on the real ubits/ubuf_block_stream code vs an independent bit packer",
         "level_text": "Exhaustive enumeration of all field sequences up to the stated depth over widths 1..32 and boundary values; every transition compares bytes, length, read-back (ubits_get and block stream over all segmentations into <=3 segments), overflow reporting and guard bytes. Bounded, not a proof.",
-        "level_note": "Trusted: reference packer (15 lines), clang/ASan. Outside the bound: sequences longer than the depth, values other than the 5 boundary patterns.",
+        "level_note": "Trusted: reference packer (15 lines), clang/ASan. Three-segment layouts are also built by inserting a segmented block and by write mappings that start inside a segment (each mapping must end with its segment). Outside the bound: sequences longer than the depth, values other than the 5 boundary patterns.",
         "jobs": {
             "quick": [("c18_bits", ["--mode", "write", "--widths", "full", "--values", 5, "--depth", 3, "--deadline", 70]),
                       ("c18_bits", ["--mode", "stream", "--widths", "full", "--values", 3, "--depth", 2, "--deadline", 70]),
@@ -150,7 +150,7 @@ CHECKS["C03"] = {
     "engine": "seqx", "design_ref": "DESIGN.md section 3 C03",
     "technique": "explicit-state BFS over block mutator sequences on real ubuf_block/ubuf_block_mem vs a byte-vector model, full accessor sweep on every distinct state",
     "level_text": "All sequences of append/insert/delete/truncate/resize/prepend/splice/split/copy/merge/dup (with in-range, boundary, negative and out-of-range arguments) up to the stated depth, on 4 manager configurations and two initial sizes; every transition checks result, size, content and error-leaves-unchanged by walking the segment chain; every distinct state (segmentation + offset caches) gets the full accessor sweep at all offsets/sizes. Bounded, not a proof.",
-    "level_note": "Trusted: the byte-vector model and the direct walk of public struct ubuf_block fields. Outside: blocks longer than maxn bytes / more than 4 segments, deeper sequences, negative offsets for insert/delete/truncate (not defined by the header).",
+    "level_note": "Trusted: the byte-vector model and the direct walk of public struct ubuf_block fields. Fault jobs (--faults): once (twice in thorough) per history the k-th next memory request (k=1,2; buffer areas and buffer / shared-area descriptors: umem_alloc.c, ubuf_block_mem.c, ubuf_mem_common.c are compiled with -Dmalloc=vf_malloc) is refused; the operation may then fail and must leave the block unchanged. Outside: blocks longer than maxn bytes / more than 4 segments, deeper sequences, negative offsets for insert/delete/truncate (not defined by the header).",
     "jobs": {"quick": _c03_jobs(4, 4, 75), "thorough": _c03_jobs(5, 6, 840)},
     "rule": "BFS, key = per block: segments (area index, offset, size), total_size, offset-cache segment+offset, end-cache segment; "
             "non-trivial = distinct states whose main block is segmented",
@@ -272,7 +272,7 @@ CHECKS["C10"] = {
     "engine": "seqx", "design_ref": "DESIGN.md section 3 C10",
     "technique": "explicit-state BFS over set/delete/dup/copy/import/aliasing-set sequences on two real udict_inline dictionaries vs an ordered-map model",
     "level_text": "All operation sequences up to the stated depth over keys chosen to collide (same name/other type, prefixes, shorthand vs named, every attribute type) and boundary values (sizes 0/1/5/40/65000, 64-bit extremes), on 3 manager configurations that force storage growth; after every transition all keys are looked up with the typed getters in both dictionaries, iteration must visit each present attribute exactly once, udict_cmp must agree with the models, and the counting allocator must see no overrun. With --faults: additionally, once (twice in thorough) per history, 'the k-th next memory request is refused' (k=1,2) is armed; a refused set / dup / copy / import must fail cleanly: every other attribute untouched, the attribute being set either keeps its old value or (old value removed first) is absent, later operations behave, nothing leaks. Bounded, not a proof.",
-    "level_note": "Trusted: the map model and value generators. Outside: sequences beyond the depth, names other than a/ab/abc/b, values other than the boundary sets, INT64_MIN (documented assert).",
+    "level_note": "Trusted: the map model and value generators. Every walk is repeated with the caller's own copy of the name; on every distinct state uref_attr_copy_<type> of every key from the other dictionary (an empty one when there is none) into a duplicate must yield the source's value or absence and leave the neighbouring keys alone. Outside: sequences beyond the depth, names other than a/ab/abc/b, values other than the boundary sets, INT64_MIN (documented assert).",
     "jobs": {"quick": _c10_jobs("quick"), "thorough": _c10_jobs("thorough")},
     "rule": "BFS, key = iteration order of both dictionaries with values (TLV order is hidden state) + allocation sizes; non-trivial = states with >= 2 attributes or a second dictionary",
     "bounds": {"quick": "10 keys depth 4, 20 keys depth 3, 6 keys depth 5, x3 manager configs (min,extra,pool) in {(1,1,0),(8,4,2),default}; 65000-octet values depth 3",
